@@ -353,6 +353,33 @@ fn parse_hand_err(n: usize, s: &'static str) -> Option<usize> {
     }
 }
 
+/// C07 over a pair of values: does cmp agree with what the property fixes (stronger = lower valid value is Greater;
+/// invalid below valid; two invalid ranks: Equal iff same value, antisymmetric); do == and != agree with the values and
+/// with cmp; do partial_cmp and the four operators agree with cmp?
+pub fn hrkey_bits(a: u16, b: u16) -> (bool, bool, bool) {
+    hrkey_bits_of(&HandRank::from(a), &HandRank::from(b), a, b)
+}
+
+/// the same on two ranks already converted from `a` and `b` (the all-pairs sweep converts each value once)
+pub fn hrkey_bits_of(x: &HandRank, y: &HandRank, a: u16, b: u16) -> (bool, bool, bool) {
+    use std::cmp::Ordering::{Equal, Greater, Less};
+    let inval = |v: u16| v == 0 || v > 7462;
+    let c = x.cmp(y);
+    let spec_ok = match (inval(a), inval(b)) {
+        (false, false) => c == b.cmp(&a),
+        (true, false) => c == Less,
+        (false, true) => c == Greater,
+        (true, true) => (c == Equal) == (a == b) && y.cmp(x) == c.reverse(),
+    };
+    let eq_ok = (x == y) == (a == b) && (x != y) == (a != b) && (c == Equal) == (x == y);
+    let ops_ok = x.partial_cmp(y) == Some(c)
+        && (x < y) == (c == Less)
+        && (x <= y) == (c != Greater)
+        && (x > y) == (c == Greater)
+        && (x >= y) == (c != Less);
+    (spec_ok, eq_ok, ops_ok)
+}
+
 #[allow(clippy::too_many_lines)]
 pub fn exec(lineno: usize, l: &str) -> String {
     let toks: Vec<&str> = l.split_ascii_whitespace().collect();
@@ -955,6 +982,23 @@ pub fn exec(lineno: usize, l: &str) -> String {
             push_opt(&mut o, guard(|| b(h.is_suited())));
             push_opt(&mut o, guard(|| b(h.is_suited_connector())));
         },
+        // the starting-hand helpers on a two-card hand given as TEXT (the crate's own parser builds the hand)
+        "twotext" => {
+            let s = leak(scalars_to_string(&nums()));
+            match guard(|| Two::try_from(s)) {
+                None => o.push_str(" P"),
+                Some(Err(_)) => o.push_str(" Err"),
+                Some(Ok(h)) => {
+                    push_opt(&mut o, guard(|| h.chen_formula()));
+                    push_opt(&mut o, guard(|| h.get_gap()));
+                    push_opt(&mut o, guard(|| h.high_card()));
+                    push_opt(&mut o, guard(|| b(h.is_connector())));
+                    push_opt(&mut o, guard(|| b(h.is_pocket_pair())));
+                    push_opt(&mut o, guard(|| b(h.is_suited())));
+                    push_opt(&mut o, guard(|| b(h.is_suited_connector())));
+                },
+            }
+        },
         "bcfrom" => {
             let v = nums();
             let n = v[0] as usize;
@@ -1091,24 +1135,8 @@ pub fn exec(lineno: usize, l: &str) -> String {
         // Greater; invalid below valid; two invalid ranks: Equal iff same value, antisymmetric), do ==, partial_cmp and the four
         // operators agree with cmp?
         "hrkey" => {
-            use std::cmp::Ordering::{Equal, Greater, Less};
             let v = nums();
-            let inval = |a: u64| a == 0 || a > 7462;
-            let x = HandRank::from(v[0] as u16);
-            let y = HandRank::from(v[1] as u16);
-            let c = x.cmp(&y);
-            let spec_ok = match (inval(v[0]), inval(v[1])) {
-                (false, false) => c == v[1].cmp(&v[0]),
-                (true, false) => c == Less,
-                (false, true) => c == Greater,
-                (true, true) => (c == Equal) == (v[0] == v[1]) && y.cmp(&x) == c.reverse(),
-            };
-            let eq_ok = (x == y) == (v[0] == v[1]) && (x != y) == (v[0] != v[1]) && (c == Equal) == (x == y);
-            let ops_ok = x.partial_cmp(&y) == Some(c)
-                && (x < y) == (c == Less)
-                && (x <= y) == (c != Greater)
-                && (x > y) == (c == Greater)
-                && (x >= y) == (c != Less);
+            let (spec_ok, eq_ok, ops_ok) = hrkey_bits(v[0] as u16, v[1] as u16);
             let _ = write!(o, " {} {} {}", b(spec_ok), b(eq_ok), b(ops_ok));
         },
         "hrtri" => {
